@@ -15,10 +15,11 @@
      read) are taken silently between events. *)
 EXTENDS Trace_RevCache
 
-HKeys == {Trace[1].allkeys[i] : i \in 1..Len(Trace[1].allkeys)}       \* the first line (a Reset) lists every key of the file
 HDocOf(k) == k
-HThreads == {Trace[1].threads[i] : i \in 1..Len(Trace[1].threads)}     \* ... every thread name
-HPool == Trace[1].pool                                                  \* ... and the number of value ids needed (capacity + threads + 2)
+(* static name pools (a definition that reads the trace is re-evaluated at every use): the harness driver uses k1..k8 / t1..t4;
+   for the repository's own tests checks/C16.py renames the keys and goroutines of one cache instance into these pools *)
+OKeys    == {"k" \o ToString(i) : i \in 1..112}
+OThreads == {"t" \o ToString(i) : i \in 1..32}
 
 VARIABLES ritems, rtotal,   \* recorded gauges after the last step
           rlen, rmap,       \* recorded rc.lruList.Len() / len(rc.cache) at the last step made under rc.lock
@@ -73,8 +74,10 @@ StepFacts(e, t) ==       \* pre-state: unprimed, post-state: primed
                                     /\ th'[t].nrem = e.nrem
        [] e.ev = "UpDec" -> th[t].nrem = e.nn
        [] e.ev = "Load" -> /\ (val[v].c # Nil \/ val[v].e) = e.hit
-                           /\ val'[v].e = e.err /\ (~e.err => val'[v].b = e.bytes)
-       [] e.ev \in {"Cas", "PCas"} -> (val[v].ms = "L") = e.ok /\ val'[v].ms = e.msnow
+                           /\ IF e.hit THEN val[v].e = e.err /\ (~e.err => val[v].b = e.bytes)         \* (after a hit the thread lets go of the value)
+                                    ELSE val'[v].e = e.err /\ (~e.err => val'[v].b = e.bytes)
+       [] e.ev = "Cas" -> (val[v].ms = "L") = e.ok
+       [] e.ev = "PCas" -> (val[v].ms = "L") = e.ok /\ val'[v].ms = e.msnow
        [] e.ev \in {"Add", "PAdd"} -> total' - total = e.bytes
        [] e.ev = "SBytes" -> val'[v].b = e.bytes
        [] e.ev = "PStore" -> (val[v].c = Nil) = e.stored
